@@ -264,6 +264,10 @@ func addVal(valA, valB Quantity) Quantity {
 }
 
 func subVal(valA, valB Quantity) Quantity {
+	// the minimum value cannot be negated: subtract one less and add the remaining one
+	if valB == math.MinInt64 {
+		return addVal(addVal(valA, math.MaxInt64), 1)
+	}
 	return addVal(valA, -valB)
 }
 
